@@ -14,18 +14,19 @@ import (
 type Case struct {
 	Ev     string   `json:"ev"`
 	ID     int      `json:"id"`
-	Fam    string   `json:"fam"`              // int | dec | dbl | mixed | str
-	Coll   string   `json:"coll"`             // str: bin | ai_ci | as_cs | general_ci ; else "none"
+	Fam    string   `json:"fam"`  // int | dec | dbl | mixed | str
+	Coll   string   `json:"coll"` // str: bin | ai_ci | as_cs | general_ci ; else "none"
 	Tables []*Table `json:"tables"`
 	ExpCls [][]int  `json:"expcls,omitempty"` // binding A: the partition TLC expects (ids), checked by Trace_Eq
 	Note   string   `json:"note,omitempty"`
+	Ops    string   `json:"ops,omitempty"` // "matrix": record only the '=' matrix (witness of a defect of '=' itself)
 }
 
 type Table struct {
-	Name string  `json:"name"`
-	Type string  `json:"type"` // int | dec | dec1 | dbl | str
-	Vals []TVal  `json:"vals"`
-	ids  []int   // global ids of the rows (assigned by the runner)
+	Name string `json:"name"`
+	Type string `json:"type"` // int | dec | dec1 | dbl | str
+	Vals []TVal `json:"vals"`
+	ids  []int  // global ids of the rows (assigned by the runner)
 }
 
 // TVal is a value to store: NULL, a number scaled by 100 (so 1.5 is 150), or a string.
